@@ -792,7 +792,7 @@ func (p *g1JacExtended) addMixed(a *G1Affine) *g1JacExtended {
 // doubleNegMixed works the same as double, but negates q.Y.
 func (p *g1JacExtended) doubleNegMixed(q *G1Affine) *g1JacExtended {
 
-	var Z, U, V, W, S, XX, M, S2, L fp.Element
+	var U, V, W, S, XX, M, S2, L fp.Element
 
 	U.Double(&q.Y)
 	U.Neg(&U)
@@ -802,8 +802,7 @@ func (p *g1JacExtended) doubleNegMixed(q *G1Affine) *g1JacExtended {
 	XX.Square(&q.X)
 	M.Double(&XX).
 		Add(&M, &XX)
-	Z.Square(&p.ZZ)
-	M.Add(&M, &Z)
+	M.Add(&M, &aCurveCoeff) // a⋅ZZ² with ZZ=1 for the affine operand
 	S2.Double(&S)
 	L.Mul(&W, &q.Y)
 
@@ -823,7 +822,7 @@ func (p *g1JacExtended) doubleNegMixed(q *G1Affine) *g1JacExtended {
 // http://www.hyperelliptic.org/EFD/g1p/auto-shortw-xyzz.html#doubling-dbl-2008-s-1
 func (p *g1JacExtended) doubleMixed(q *G1Affine) *g1JacExtended {
 
-	var Z, U, V, W, S, XX, M, S2, L fp.Element
+	var U, V, W, S, XX, M, S2, L fp.Element
 
 	U.Double(&q.Y)
 	V.Square(&U)
@@ -832,8 +831,7 @@ func (p *g1JacExtended) doubleMixed(q *G1Affine) *g1JacExtended {
 	XX.Square(&q.X)
 	M.Double(&XX).
 		Add(&M, &XX)
-	Z.Square(&p.ZZ)
-	M.Add(&M, &Z)
+	M.Add(&M, &aCurveCoeff) // a⋅ZZ² with ZZ=1 for the affine operand
 	S2.Double(&S)
 	L.Mul(&W, &q.Y)
 
